@@ -88,4 +88,11 @@ CHECKS = {
         "every text up to the bound is loaded and re-exported the same way; field validation for all contents.",
    note="Trusted: z3; models of render_bytes/join_bytes/BytesIO (validated against the real helpers each run); the dict model. The "
         "inductive argument needs the representation invariant stated in the evidence. Outside: file-system I/O, longer names."),
+ "C19": dict(engine="E3-schedule-bmc", category="model_checking", design_ref="DESIGN.md §3 E3, §4 C19",
+   technique="z3 bounded model checking of all thread schedules over event sequences extracted from the current source; sat schedules replayed with a sys.settrace line scheduler",
+   text="The shared-state events of LazyCryptContext, LazyBase64Engine and the multi-backend auto-load stub are extracted from the "
+        "current source; z3 explores every interleaving of 2 (thorough 3) first callers, one event per step, and shows no schedule "
+        "reaches an error state (missing pending options, use before the constructor finished, stale lazy-loader assertion).",
+   note="Explicit model of ~15 event kinds (vlib/bmc.py); adequacy is checked by a one-thread sanity twin and by replaying every sat "
+        "schedule on the real classes. Outside: registry lazy import, record caches, CPython internals below attribute access."),
 }
